@@ -531,14 +531,9 @@ def base_cases(rng, n_any, n_valid, tiny_p=0.5, rich_every=0):
             continue
         yield gen_desc(rng, maxrows=rng.choice([1, 2, 3]), tiny=rng.random() < tiny_p), False
     for k in range(n_valid):
-        d = valid_ts_desc(rng)
-        if k < 4:       # the first valid bases have >= 2 edges and a mutation with a parent mutation
-            for _ in range(60):
-                m = d["tables"]["mutations"]
-                par = [int.from_bytes(bytes.fromhex(m["cols"]["parent"])[4 * j:4 * j + 4], "little", signed=True) for j in range(m["n"])]
-                if d["tables"]["edges"]["n"] >= 2 and any(p >= 0 for p in par):
-                    break
-                d = valid_ts_desc(rng)
+        # the first valid bases are "rich": no id column of any table is empty (migrations, individual
+        # parents, node individual / population, mutation parents, >= 2 edges)
+        d = valid_ts_desc(rng, rich=(k < 4))
         yield d, True
 
 
@@ -1098,6 +1093,29 @@ class Data(CorruptFamily):
                     for v in sorted(cands | {j, j + 1, j - 1}):
                         if v != vals[j] and -2 ** 31 <= v < 2 ** 31:
                             eds.append([(a0 + 4 * j, int(v).to_bytes(4, "little", signed=True))])
+        # coordinate / time columns: cells set to 0, -1, L, the double after L, NaN, +inf, the neighbouring cell
+        Lb = None
+        for it in lay.p["items"]:
+            if it["key"] == b"sequence_length" and it["array_len"] == 1:
+                Lb = base[it["array_start"]:it["array_start"] + 8]
+        if Lb is not None:
+            Lv = struct.unpack("<d", Lb)[0]
+            import math
+            specials = [0.0, -1.0, Lv, math.nextafter(Lv, math.inf) if Lv == Lv and Lv != math.inf else 1.0, float("nan"), math.inf]
+            for it in lay.p["items"]:
+                k = it["key"].decode("latin1")
+                if k in ("edges/left", "edges/right", "sites/position", "migrations/left", "migrations/right",
+                         "migrations/time", "nodes/time", "mutations/time") and it["type"] == 9:
+                    a0, E = it["array_start"], it["array_len"]
+                    for j in range(min(E, 3)):
+                        cur = base[a0 + 8 * j:a0 + 8 * j + 8]
+                        cands = [struct.pack("<d", v) for v in specials]
+                        if E > 1:
+                            jn = (j + 1) % E
+                            cands.append(base[a0 + 8 * jn:a0 + 8 * jn + 8])
+                        for b8 in cands:
+                            if b8 != cur:
+                                eds.append([(a0 + 8 * j, b8)])
         # sequence_length: special doubles (NaN, -NaN, +-inf, +-0, negative, denormal)
         for it in lay.p["items"]:
             if it["key"] == b"sequence_length" and it["array_len"] == 1:
